@@ -24,6 +24,7 @@ import numpy as np
 import xarray as xr
 
 from common import Driver, close, list_tok, tok, untok
+import il_corr
 
 PROP = "C12"
 NAN = float("nan")
@@ -1091,7 +1092,10 @@ def run(r, scale=1):
               "representable in float32 (0.1, 1/3, 2^24+1, ...), numpy and dask backends, k in 1..12 (+23/29/31/36 for "
               "quantile), sampled natural_breaks; precision edges (reclassify, _cpu_bin): float32 / float64 / int32 / int64 "
               "cells with float64 bounds on, one ulp of either precision beside, and half way between the cells "
-              "(decimals, thirds, integers beyond 2^24, subnormals, 1e38), through _run_numpy_bin's casts; Jenks tables on sorted samples n <= 9 (12 thorough) against brute force. "
+              "(decimals, thirds, integers beyond 2^24, subnormals, 1e38), through _run_numpy_bin's casts; "
+              "il:cpuBin: the generated ILang program of _cpu_bin vs numba, fuel = nbins + 1 (ascending / tied / unsorted / "
+              "+-inf / NaN bins, 1..130 bins, no bins with an all-non-finite raster, cells on / beside / between the bounds, "
+              "empty rasters, float32 / float64); Jenks tables on sorted samples n <= 9 (12 thorough) against brute force. "
               "non-trivial = distinct case with at least two distinct finite values")
     try:
         check_facts(r, drv)
@@ -1103,6 +1107,9 @@ def run(r, scale=1):
         r.case(c, nontrivial=True, tags=["corpus"])
         res = eval_case(r, c)
     stream_cpu_bin(r, drv)
+    # layer T3: the program generated statement by statement from `_cpu_bin` (Gen.IL.cpuBin, the subject of the
+    # refinement theorems `generated_cpu_bin_*`) against the numba-compiled function, run with fuel = nbins + 1
+    il_corr.stream(r, ["cpuBin"], {"quick": 1000, "thorough": 10000}[r.tier] * scale, drv)
     rng = r.rng
     stream_round32(r, drv, 60 * n)
     stream_generic(r, drv, "reclassify", [gen_reclass(rng) for _ in range(250 * n)])
@@ -1140,7 +1147,14 @@ def search(r):
 
 
 def replay(r, body):
-    c = body["case"]
+    c = body.get("case")
+    if c is None or (isinstance(c, dict) and "prog" in c):
+        # a translator-validation case of layer T3 (`il:cpuBin`): recorded as a disagreement
+        ils = [c] if c is not None else [d["case"] for d in body.get("disagreements", [])
+                                         if str(d.get("stream", "")).startswith("il:")]
+        bad = sum(il_corr.replay_case(k) for k in ils)
+        print("still disagrees: il:cpuBin" if bad else "does not fail on the current tree")
+        return 1 if bad else 0
     before = len(r.failures)
     if c["kind"] == "jenks":
         drv = Driver()
